@@ -223,23 +223,35 @@ Proof.
   lia.
 Qed.
 
-(* Rolling buffers are tall enough whenever no consumer box is more than one row taller than stripe_input.height
-   (hx = stripe_input.height + 1): every row of every consumer stripe's IFM box is still in the buffer when the
-   stripe runs, for any producer stripe height *)
-Lemma rolling_buffer_sufficient_cond g hc hp :
+Lemma box_rows_bound g hc st en : geom_ok g -> 1 <= hc -> 0 <= st -> st < en -> en <= g_out g -> en - st <= hc ->
+  snd (box_of g st en) - fst (box_of g st en) <= stripe_ifm_rows g hc.
+Proof.
+  intros G Hhc H0 H1 H2 H3. rewrite (box_of_eq g st en G H0 H1 H2). cbn [fst snd].
+  destruct G as (Hs & Hd & Hk & HH & Ho1 & HoH & Htop & Hskt & Hskb & Hbot).
+  unfold stripe_ifm_rows, stripe_input_h. rewrite required_size_1, Hskt, Hskb.
+  destruct (needed_total_padding_ge (g_in g) (g_s g) (g_kd g) ltac:(lia)) as [Hyp Hyp0].
+  assert (1 <= g_kd g) by (unfold g_kd; nia).
+  assert (en * g_s g - st * g_s g <= hc * g_s g) by (rewrite <- Z.mul_sub_distr_r; apply mul_mono_r; lia).
+  assert (0 <= (hc - 1) * g_s g) by (apply Z.mul_nonneg_nonneg; lia).
+  lia.
+Qed.
+
+(* Rolling buffers are tall enough (cascade_builder as repaired: the buffer is sized for the IFM box of a consumer stripe,
+   stripe_ifm_rows, not only for the rows its kernel reads): for every geometry, consumer stripe height and producer stripe
+   height, every row of every consumer stripe's IFM box is still in the buffer when the stripe runs *)
+Lemma rolling_buffer_sufficient_lemma g hc hp :
   geom_ok g -> 1 <= hc -> 1 <= hp ->
-  (forall st en, 0 <= st -> st < en -> en <= g_out g -> en - st <= hc ->
-     snd (box_of g st en) - fst (box_of g st en) <= stripe_input_h g hc + 1) ->
   run_events (buffer_h g hc hp) rb_empty (cascade_events g hc hp) = true.
 Proof.
-  intros G Hhc Hhp Hbox. pose proof G as (Hs & Hd & Hk & HH & Ho1 & HoH & Htop & Hskt & Hskb & Hbot).
+  intros G Hhc Hhp. pose proof G as (Hs & Hd & Hk & HH & Ho1 & HoH & Htop & Hskt & Hskb & Hbot).
   assert (Hin : 1 <= stripe_input_h g hc).
   { unfold stripe_input_h. rewrite required_size_1. assert (1 <= g_kd g) by (unfold g_kd; nia).
     assert (0 <= (hc - 1) * g_s g) by (apply Z.mul_nonneg_nonneg; lia). lia. }
-  assert (Hb : hp + stripe_input_h g hc <= buffer_h g hc hp).
-  { unfold buffer_h, rolling_buffer_shape. apply round_up_spec. lia. }
+  assert (Hrows : stripe_input_h g hc <= stripe_ifm_rows g hc) by (unfold stripe_ifm_rows; lia).
+  assert (Hb : hp + stripe_ifm_rows g hc - 1 <= buffer_h g hc hp).
+  { unfold buffer_h, rolling_buffer_shape. apply Z.le_max_r. }
   unfold cascade_events.
-  apply (run_interleave_ok (buffer_h g hc hp) hp (stripe_input_h g hc + 1) (g_in g)
+  apply (run_interleave_ok (buffer_h g hc hp) hp (stripe_ifm_rows g hc) (g_in g)
            ltac:(lia) ltac:(lia) ltac:(lia) _ _ 0 rb_empty
            (Z.max (Z.min (0 * g_s g + (needed_total_padding (g_in g) (g_s g) (g_kd g) - g_top g)) (g_in g)) 1)).
   - apply stripes_prod_ok; lia.
@@ -247,68 +259,33 @@ Proof.
   - intros y Hy0 Hlo Hhi. lia.
   - left. reflexivity.
   - unfold cons_cmds_1d. apply (cons_cmds_ok g hc); try assumption; try lia.
+    + intros st en H0 H1 H2 H3. apply box_rows_bound; assumption.
     + apply stripes_1d_chain; lia.
     + apply stripes_len. lia.
 Qed.
 
-(* ... in particular whenever the box excess is at most one row: unconditionally for strides 1 and 2
-   (box_excess_stride_le_2), for any stride dividing the input height (box_excess_divisible), for stride 3 with
-   H mod 3 = 2 *)
-Lemma rolling_buffer_sufficient_lemma g hc hp :
-  geom_ok g -> 1 <= hc -> 1 <= hp -> box_excess g <= 1 ->
-  run_events (buffer_h g hc hp) rb_empty (cascade_events g hc hp) = true.
-Proof.
-  intros G Hhc Hhp Hex. apply rolling_buffer_sufficient_cond; try assumption.
-  intros st en H0 H1 H2 H3. pose proof (box_height_bound g hc st en G Hhc H0 H1 H2 H3). lia.
-Qed.
-
-Lemma box_excess_stride_le_2 g : 1 <= g_s g <= 2 -> 1 <= g_k g -> 1 <= g_d g -> box_excess g <= 1.
-Proof.
-  intros Hs Hk Hd. unfold box_excess, needed_total_padding. pose proof (Z.mod_pos_bound (g_in g) (g_s g) ltac:(lia)).
-  assert (1 <= g_kd g) by (unfold g_kd; nia).
-  destruct (Z.eqb_spec (g_in g mod g_s g) 0); lia.
-Qed.
-
-(* any stride, when it divides the input height and the kernel is at least as large as the stride *)
-Lemma box_excess_divisible g : 1 <= g_s g -> g_in g mod g_s g = 0 -> g_s g <= g_kd g -> box_excess g = 0.
-Proof.
-  intros Hs Hm Hk. unfold box_excess, needed_total_padding. rewrite Hm. cbn. lia.
-Qed.
-
-(* ---------- the unchanged code violates the last clause of the property (defect P10) ---------- *)
-(* 3x3 stride-3 SAME convolution on 10 rows, consumer stripes of 1 row, producer stripes of 3 rows (= 1 * stride, as
-   propose_schedule_striping chooses): the scheduler sizes the buffer from stripe_input.height = 3 -> 6 rows; the
-   transform asks for rows [2,7) for consumer stripe 1, the producer is driven to row 9, and row 2 -- which consumer
-   output row 1 taps with ky = 0 -- has been overwritten by row 8 *)
+(* ---------- the instance that refuted the old sizing (defect P10, repaired) ---------- *)
+(* 3x3 stride-3 SAME convolution on 10 rows, consumer stripes of 1 row, producer stripes of 3 rows.  The old
+   rolling_buffer_shape sized the buffer from stripe_input.height = 3 alone: 6 rows; the transform asks for rows [2,7) for
+   consumer stripe 1 (5 rows, box excess 2), the producer is driven to row 9 and row 2 -- tapped by output row 1, ky = 0 --
+   was overwritten by row 8.  Sized for the box (5 rows) the buffer has 7 rows and every row survives. *)
 Definition p10_geom : geom :=
   {| g_in := 10; g_out := 4; g_k := 3; g_d := 1; g_s := 3; g_top := 1; g_bottom := 1; g_sk_t := 1; g_sk_b := 1 |}.
 
-Lemma p10_geom_from_code :
+Example p10_repaired_example :
   calc_padding_and_skirt PAD_SAME 3 3 3 3 10 10 {| p_top := 0; p_left := 0; p_bottom := 0; p_right := 0 |}
   = Some ({| p_top := 1; p_left := 1; p_bottom := 1; p_right := 1 |}, {| p_top := 1; p_left := 1; p_bottom := 1; p_right := 1 |})
-  /\ geom_ok p10_geom /\ stripe_input_h p10_geom 1 = 3 /\ buffer_h p10_geom 1 3 = 6 /\ box_excess p10_geom = 2.
+  /\ geom_ok p10_geom /\ stripe_input_h p10_geom 1 = 3 /\ stripe_ifm_rows p10_geom 1 = 5 /\ box_excess p10_geom = 2 /\
+  buffer_h p10_geom 1 3 = 7 /\
+  run_events 7 rb_empty (cascade_events p10_geom 1 3) = true /\
+  (* the old height round_up (3 + 3) 3 = 6 *)
+  run_events 6 rb_empty (cascade_events p10_geom 1 3) = false /\
+  tapped_row_lost 6 (fold_left (fun m p => rb_write_rows 6 m (fst p) (Z.to_nat (snd p - fst p))) [(0, 3); (3, 6); (6, 9)] rb_empty)
+    p10_geom (1, 2, (2, 7, 0, 0)) 1 0 = true.
 Proof.
   split; [vm_compute; reflexivity|]. split.
   - unfold geom_ok, p10_geom, g_kd. cbn. repeat split; try lia; vm_compute; reflexivity.
   - vm_compute. repeat split; reflexivity.
-Qed.
-
-Lemma rolling_buffer_refuted_lemma :
-  exists g hc hp, geom_ok g /\ 1 <= hc /\ hp = hc * g_s g /\
-    run_events (buffer_h g hc hp) rb_empty (cascade_events g hc hp) = false /\
-    (* a row that is really tapped is lost: state of the buffer when consumer stripe [1,2) runs *)
-    exists m c r ky,
-      In (ECons c) (cascade_events g hc hp) /\ fst (fst c) <= r < snd (fst c) /\ 0 <= ky < g_k g /\
-      m = fold_left (fun m p => rb_write_rows (buffer_h g hc hp) m (fst p) (Z.to_nat (snd p - fst p)))
-            [(0, 3); (3, 6); (6, 9)] rb_empty /\
-      tapped_row_lost (buffer_h g hc hp) m g c r ky = true.
-Proof.
-  exists p10_geom, 1, 3. split; [apply p10_geom_from_code|]. split; [lia|]. split; [reflexivity|].
-  split; [vm_compute; reflexivity|].
-  eexists _, (1, 2, (2, 7, 0, 0)), 1, 0.
-  split; [vm_compute; right; right; right; right; left; reflexivity|].
-  split; [cbn; lia|]. split; [cbn; lia|]. split; [reflexivity|].
-  vm_compute. reflexivity.
 Qed.
 
 (* the hypotheses of rolling_buffer_sufficient_lemma are satisfiable: 5x5 stride-2 SAME convolution on 23 rows,
@@ -316,16 +293,16 @@ Qed.
 Example rolling_buffer_sufficient_example :
   exists g pad skirt,
     calc_padding_and_skirt PAD_SAME 5 5 2 2 23 23 {| p_top := 0; p_left := 0; p_bottom := 0; p_right := 0 |} = Some (pad, skirt) /\
-    g = geom_of 23 12 5 1 2 pad skirt /\ geom_ok g /\ box_excess g <= 1 /\
+    g = geom_of 23 12 5 1 2 pad skirt /\ geom_ok g /\
     buffer_h g 2 4 = 14 /\ List.length (cascade_events g 2 4) = 12%nat /\
     run_events (buffer_h g 2 4) rb_empty (cascade_events g 2 4) = true.
 Proof.
   eexists _, _, _. split; [vm_compute; reflexivity|]. split; [reflexivity|].
   assert (G := same_geom_ok 23 12 5 1 2 _ _ 5 2 23 {| p_top := 0; p_left := 0; p_bottom := 0; p_right := 0 |}
                  ltac:(lia) ltac:(lia) ltac:(lia) ltac:(lia) ltac:(reflexivity) ltac:(vm_compute; reflexivity)).
-  destruct G as [G _]. split; [exact G|]. split; [vm_compute; discriminate|].
+  destruct G as [G _]. split; [exact G|].
   split; [vm_compute; reflexivity|]. split; [vm_compute; reflexivity|].
-  apply rolling_buffer_sufficient_lemma; [exact G | lia | lia | vm_compute; discriminate].
+  apply rolling_buffer_sufficient_lemma; [exact G | lia | lia].
 Qed.
 
 (* ---------- the two-tile address map of a rolling buffer ---------- *)
